@@ -244,13 +244,17 @@ def gen_repo(rng, bucket):
     if bucket == "errors" and rng.random() < 0.3:
         refs.append(["refs/heads/dangling", ncom + 5])
     r = rng.random()
-    if bucket == "errors" and r < 0.2:
+    if bucket == "errors" and r < 0.25:
         head = ["sym", "refs/heads/unborn"]
-    elif bucket == "errors" and r < 0.35:
+    elif bucket == "errors" and r < 0.4:
         head = ["det", ncom + 5]
-    elif bucket == "errors" and r < 0.45 and any(x[0] == "refs/heads/dangling" for x in refs):
+    elif bucket == "errors" and r < 0.6:
+        if not any(x[0] == "refs/heads/dangling" for x in refs):
+            refs.append(["refs/heads/dangling", ncom + 5])
         head = ["sym", "refs/heads/dangling"]
-    elif bucket == "errors" and r < 0.5 and any(x[0] == "refs/tags/t" for x in refs):
+    elif bucket == "errors" and r < 0.75:
+        if not any(x[0] == "refs/tags/t" for x in refs):
+            refs.append(["refs/tags/t", rng.randrange(nloc)])
         head = ["sym", "refs/tags/t"]
     elif r < 0.85:
         head = ["sym", rng.choice([x[0] for x in refs if x[0].startswith("refs/heads/") and x[1] < ncom])]
@@ -333,7 +337,11 @@ def op_add(rng, c, errors):
 def op_commit(rng, c, errors):
     o = {"op": "commit", "all": rng.random() < 0.35, "allow_empty": rng.random() < 0.2, "author": rng.random() < 0.5,
          "amend": rng.random() < 0.15}
-    if o["all"] and o["amend"] and not (errors and rng.random() < 0.3):
+    if errors and rng.random() < 0.3:
+        o["amend"] = True
+    if errors and rng.random() < 0.2:
+        o["all"] = o["amend"] = True
+    elif o["all"] and o["amend"]:
         o["amend"] = False
     if errors and rng.random() < 0.3:
         o["author"] = False
@@ -369,6 +377,12 @@ def op_pull(rng, c, errors):
         if rng.random() < 0.4:
             rrefs.append([b, rng.randrange(ncom)])
     o = {"op": "pull", "conf": True, "reach": True, "rrefs": sorted(rrefs), "rhead": "refs/heads/master", "refname": ""}
+    if not errors and hc is not None and 0 <= hc < ncom and rng.random() < 0.12:
+        # nothing new: the tracking references already hold what the remote advertises, which HEAD contains
+        tgt = rng.choice(sorted(ancestors(c["commits"], hc)))
+        o["rrefs"] = [["refs/heads/master", tgt]]
+        c["refs"] = sorted([r for r in c["refs"] if r[0] != "refs/remotes/origin/master"] + [["refs/remotes/origin/master", tgt]])
+        return o
     r = rng.random()
     if r < 0.15 and len(rrefs) > 1:
         o["rhead"] = rrefs[1][0]
@@ -403,9 +417,13 @@ def gen_case(rng, bucket, calm=False):
     """bucket: <op> | <op>-err | unstaged (pull / commit on a dirty worktree) | random;
     calm: mostly clean repositories, so that the main op usually goes through (fault suite)"""
     kind, errors = bucket, False
+    repo_bucket = kind
     if bucket.endswith("-err"):
         kind, errors = bucket[:-4], True
-    repo_bucket = "errors" if errors and rng.random() < 0.4 else kind
+        repo_bucket = kind
+        if rng.random() < 0.5:
+            # the refusal comes from the repository (unborn / dangling HEAD, HEAD on a tag), the options are in order
+            repo_bucket, errors = "errors", rng.random() < 0.2
     if bucket == "unstaged":
         kind = rng.choice(["pull", "pull", "commit", "restore"])
         repo_bucket = "unstaged"
